@@ -166,6 +166,70 @@ static void jthread_prog()
     pmc_outcome("body=%d", body);
 }
 
+// jthread handle operations: two jthreads (the second one possibly empty) are swapped / move-assigned, then the
+// first one is destroyed: exactly the thread it represents *now* gets the stop request and is joined; the
+// thread the other handle represents keeps running until that handle is destroyed
+#include <pika/condition_variable.hpp>
+#include <pika/mutex.hpp>
+static void jthread_handles_prog()
+{
+    static St s;
+    s = St{};
+    g = &s;
+    int op = pmc_choose(4, 0);          // 0 nothing, 1 a.swap(b), 2 swap(a, b), 3 b = std::move(a) (b empty)
+    int b_empty = pmc_choose(2, 0);
+    static int done[2], stop_seen[2];
+    done[0] = done[1] = stop_seen[0] = stop_seen[1] = 0;
+    pmc_on_stuck(on_stuck);
+    rt::start();
+    rt::spawn([&, op, b_empty] {
+        rt::watch_self("owner");
+        static pika::mutex m;
+        static pika::condition_variable_any cv;
+        auto body = [](int idx) {
+            return [idx](pika::stop_token st) {
+                std::unique_lock<pika::mutex> l(m);
+                cv.wait(l, st, [] { return false; });    // returns only with a stop request
+                stop_seen[idx] = st.stop_requested();
+                done[idx] = 1;
+                pmc_progress();
+            };
+        };
+        int rep_a = 0, rep_b = b_empty ? -1 : 1;    // model: which thread each handle represents (-1: none)
+        {
+            pika::jthread b;
+            if (!b_empty) b = pika::jthread(body(1));
+            {
+                pika::jthread a(body(0));
+                switch (op)
+                {
+                case 1: a.swap(b); std::swap(rep_a, rep_b); break;
+                case 2: swap(a, b); std::swap(rep_a, rep_b); break;
+                case 3:
+                    // move assignment onto an empty handle only (the statement says nothing about assigning to a
+                    // joinable jthread; pika's defaulted operator terminates there, like std::thread)
+                    if (b_empty) { b = std::move(a); rep_b = rep_a; rep_a = -1; }
+                    break;
+                }
+                PMC_ASSERT(a.joinable() == (rep_a >= 0) && b.joinable() == (rep_b >= 0), "jthread-joinable", "after handle operation %d: a.joinable()=%d (model %d), b.joinable()=%d (model %d)", op, (int) a.joinable(), rep_a >= 0, (int) b.joinable(), rep_b >= 0);
+                s.in_join = 1;
+                s.body_done = 1;    // for on_stuck: the destructor below has everything it needs to return
+            }    // ~a
+            s.in_join = 0;
+            if (rep_a >= 0) PMC_ASSERT(done[rep_a] == 1 && stop_seen[rep_a] == 1, "jthread-destructor-early", "~jthread returned but the thread it represented (%d) has not finished with a stop request (done=%d)", rep_a, done[rep_a]);
+            if (rep_b >= 0) PMC_ASSERT(done[rep_b] == 0, "jthread-wrong-stop", "destroying one jthread stopped the thread (%d) that another, living jthread represents", rep_b);
+            s.in_join = 1;
+        }    // ~b
+        s.in_join = 0;
+        for (int i = 0; i < 2; ++i)
+            if (i == 0 || !b_empty) PMC_ASSERT(done[i] == 1 && stop_seen[i] == 1, "jthread-destructor-early", "thread %d did not end with a stop request (done=%d)", i, done[i]);
+        ++s.finished;
+    });
+    rt::stop();
+    PMC_ASSERT(s.finished == 1, "task-lost", "owner did not finish");
+    pmc_outcome("op=%d b_empty=%d", op, b_empty);
+}
+
 // interruption: delivered only at interruption points, only while enabled; siblings unaffected
 static void interrupt_prog()
 {
@@ -356,6 +420,7 @@ int main(int argc, char** argv)
         {"join_with_exit_callback_other", join_prog<1, 1>, 2, 3, 0.3, 0.15, 1, xfocus, xsites, nullptr},
         {"detach_selfjoin", misc_prog, 1, 2, 0.1, 0.1, 1, focus, sites, nullptr},
         {"jthread_destructor", jthread_prog, 1, 2, 0.2, 0.15, 1, focus, sites, nullptr},
+        {"jthread_handles", jthread_handles_prog, 1, 2, 0.15, 0.1, 1, focus, sites, nullptr},
         {"interrupt", interrupt_prog, 1, 2, 0.2, 0.2, 1, focus, sites, nullptr},
         {"interrupt_not_inherited", interrupt_not_inherited_prog, 1, 2, 0.15, 0.15, 1, focus, sites, nullptr},
         {"interrupt_while_disabled", interrupt_while_disabled_prog, 1, 2, 0.1, 0.1, 1, focus, sites, nullptr},
